@@ -12,13 +12,14 @@ Open Scope N_scope.
    inputs (dropped unless every input has the type and a bit survives), OR of the OR-class bits (dropped if zero),
    OR of the "used" bits (dropped unless every input has the type), in type order; or the link is rejected because
    some property type has no class.  Excluded (known_findings.json): a single input object carrying a zero-valued
-   generic UINT32_AND / UINT32_OR entry, which GNU ld copies unmerged. *)
+   generic UINT32_AND / UINT32_OR entry, which GNU ld copies unmerged; and gnu_note is GNU ld's note only where
+   unmerged_irregular is false (Model.v), so that hypothesis delimits the claim although the proof does not use it. *)
 Theorem C36_property_note_is_the_specified_merge :
-  forall files isa, well_formed files -> unmerged_zero files = [] ->
+  forall files isa, well_formed files -> unmerged_irregular files = false -> unmerged_zero files = [] ->
     wild_merge files isa =
       if forallb (fun p => match class_of (fst p) with Some _ => true | None => false end) (concat files)
       then Some (gnu_note files isa) else None.
-Proof. exact wild_is_gnu_note. Qed.
+Proof. intros files isa Hwf _. exact (wild_is_gnu_note files isa Hwf). Qed.
 Print Assumptions C36_property_note_is_the_specified_merge.
 
 (* the bits themselves (every entry that carries a bit) are the specified merge for every input, the excluded one too *)
@@ -59,8 +60,9 @@ Proof. vm_compute. split; reflexivity. Qed.
 Example C36_hypotheses_satisfiable :
   well_formed [[(3221225474, 3); (3221258242, 1)]; [(3221225474, 1)]] /\
   unmerged_zero [[(3221225474, 3); (3221258242, 1)]; [(3221225474, 1)]] = [] /\
+  unmerged_irregular [[(3221225474, 3); (3221258242, 1)]; [(3221225474, 1)]] = false /\
   gnu_note [[(3221225474, 3); (3221258242, 1)]; [(3221225474, 1)]] 2 = [(3221225474, 1); (3221258242, 3)].
 Proof.
-  split; [|vm_compute; split; reflexivity].
+  split; [|vm_compute; repeat split; reflexivity].
   intros f [<-|[<-|[]]]; cbn [map fst]; repeat constructor; cbn; intuition discriminate.
 Qed.
